@@ -75,11 +75,19 @@ func Load() (*World, error) {
 	env = append(env, "GOFLAGS=-mod=mod", "GOPROXY=off", "GOSUMDB=off", "GOTOOLCHAIN=local", "GOWORK=off")
 	var norm *normalize.Result
 	if os.Getenv("SVCHECK_NO_NORMALIZE") == "" {
-		norm, err = normalize.Run(abs, env)
-		if err != nil {
-			// the pre-pass never fails a check: fall back to the tree as it is
-			norm = &normalize.Result{Problems: []string{err.Error()}}
-		}
+		func() {
+			// the pre-pass never fails a check: on any error or panic fall back to the tree as it is
+			defer func() {
+				if p := recover(); p != nil {
+					norm = &normalize.Result{Problems: []string{fmt.Sprint("normalisation panicked: ", p)}}
+				}
+			}()
+			var nerr error
+			norm, nerr = normalize.Run(abs, env)
+			if nerr != nil {
+				norm = &normalize.Result{Problems: []string{nerr.Error()}}
+			}
+		}()
 	}
 	cfg := &packages.Config{
 		Mode:  packages.LoadAllSyntax,
